@@ -962,3 +962,60 @@ func (p *Program) contractSignature(c *ssa.Function, thin bool) string {
 	}
 	return sb.String()
 }
+
+// closedPred: the predicate's body mentions only its parameters, literals, boolean / arithmetic operators, fnis / fnenv
+// and other closed predicates (no heap access, no quantifier) and all parameters are used as plain values.
+func (p *Program) closedPred(d *PredDecl, seen map[*PredDecl]bool) bool {
+	if seen[d] {
+		return false
+	}
+	seen[d] = true
+	defer delete(seen, d)
+	params := map[string]bool{}
+	for _, q := range d.Params {
+		params[q.Name] = true
+	}
+	var pkg *types.Package
+	for _, sp := range p.pkgs {
+		if sp.Pkg.Path() == d.PkgPath {
+			pkg = sp.Pkg
+		}
+	}
+	var closed func(x Expr) bool
+	closed = func(x Expr) bool {
+		switch t := x.(type) {
+		case EIdent:
+			return params[t.Name]
+		case EInt, EBool:
+			return true
+		case EUnary:
+			return t.Op != "*" && closed(t.X)
+		case EBinary:
+			return closed(t.X) && closed(t.Y)
+		case ECond:
+			return closed(t.C) && closed(t.A) && closed(t.B)
+		case ECall:
+			switch t.Fn {
+			case "fnis":
+				return len(t.Args) == 2 && closed(t.Args[0])
+			case "fnenv":
+				return len(t.Args) == 1 && closed(t.Args[0])
+			}
+			if pkg == nil {
+				return false
+			}
+			q := p.lookupPred(pkg, t.Fn)
+			if q == nil || !p.closedPred(q, seen) {
+				return false
+			}
+			for _, a := range t.Args {
+				if !closed(a) {
+					return false
+				}
+			}
+			return true
+		}
+		return false
+	}
+	return closed(d.Body)
+}
